@@ -50,8 +50,8 @@ type CleanupPlan struct {
 
 type IterPlan struct {
 	Behav    int           `json:"b,omitempty"`
-	SleepNs  int64         `json:"sleep,omitempty"`  // body duration before the behaviour takes place
-	After    int64         `json:"after,omitempty"`  // extra sleep after a non-stopping behaviour
+	SleepNs  int64         `json:"sleep,omitempty"` // body duration before the behaviour takes place
+	After    int64         `json:"after,omitempty"` // extra sleep after a non-stopping behaviour
 	Cleanups []CleanupPlan `json:"cleanups,omitempty"`
 	// CleanupsLate: register the cleanups after the sleep instead of at the start
 	CleanupsLate bool `json:"late,omitempty"`
@@ -110,7 +110,7 @@ func (c *H1Cfg) plan(i int) IterPlan {
 	return c.Prog.Iter[i%len(c.Prog.Iter)]
 }
 
-func odd(r *simrt.Rng) int64 { return int64(1+2*r.Intn(400)) * 1000 + int64(1+r.Intn(900)) } // µs-odd offset, never a ms multiple
+func odd(r *simrt.Rng) int64 { return int64(1+2*r.Intn(400))*1000 + int64(1+r.Intn(900)) } // µs-odd offset, never a ms multiple
 
 func durStr(ns int64) string { return time.Duration(ns).String() }
 
